@@ -95,6 +95,11 @@ func rawSQLNeedsParentheses(expr Expression) bool {
 		return containsAndOr(e.SQL)
 	case NamedExpr:
 		return containsAndOr(e.SQL)
+	case OrConditions:
+		// a single raw condition passed to Or
+		if len(e.Exprs) == 1 {
+			return rawSQLNeedsParentheses(e.Exprs[0])
+		}
 	}
 	return false
 }
